@@ -1,1 +1,742 @@
-From TM Require Import C15.Model.
+(* C15 — lemmas and proofs about the WAL model (coq/C15/Model.v). *)
+From Coq Require Import List ZArith NArith Bool Lia.
+From TM Require Import Common.Hex Generated.Consts C15.Model.
+Import ListNotations.
+Open Scope Z_scope.
+
+Definition CrcCollision (crc : bytes -> bytes) : Prop :=
+  exists x y : bytes, x <> y /\ crc x = crc y.
+
+(* ------------------------------------------------------------------ be32 / rd32 *)
+Lemma be32_length : forall n, length (be32 n) = 4%nat.
+Proof. reflexivity. Qed.
+
+Lemma rd32_be32 : forall n, (n < 4294967296)%N -> rd32 (be32 n) = n.
+Proof.
+  intros n Hn. unfold rd32, be32. cbn [fold_left].
+  rewrite N.mul_0_l, N.add_0_l.
+  pose proof (N.div_mod n 256 ltac:(lia)) as E0.
+  pose proof (N.div_mod (n/256) 256 ltac:(lia)) as E1.
+  pose proof (N.div_mod (n/256/256) 256 ltac:(lia)) as E2.
+  rewrite !N.div_div in * by lia.
+  change (256*256)%N with 65536%N in *. change (65536*256)%N with 16777216%N in *.
+  assert (n / 16777216 < 256)%N by (apply N.div_lt_upper_bound; lia).
+  rewrite (N.mod_small (n / 16777216) 256) by lia.
+  lia.
+Qed.
+
+Lemma max_lt_2_32 : wal_max_msg_size_bytes < 4294967296.
+Proof. unfold wal_max_msg_size_bytes. lia. Qed.
+
+(* ------------------------------------------------------------------ list helpers *)
+Lemma firstn_exact : forall (x t : bytes), firstn (length x) (x ++ t) = x.
+Proof. intros. rewrite firstn_app, Nat.sub_diag, firstn_all. cbn. apply app_nil_r. Qed.
+Lemma skipn_exact : forall (x t : bytes), skipn (length x) (x ++ t) = t.
+Proof. intros. rewrite skipn_app, Nat.sub_diag, skipn_all. reflexivity. Qed.
+
+Lemma pad_full : forall (k : nat) (x : bytes), length x = k -> pad k x = x.
+Proof. intros k x E. unfold pad. rewrite E, Nat.sub_diag. cbn. apply app_nil_r. Qed.
+
+Lemma read_exact : forall kd (x t : bytes) (k : nat),
+  length x = k -> (0 < k)%nat -> read kd (x ++ t) k = (x, k, t, RNil).
+Proof.
+  intros kd x t k E Hk. unfold read. subst k.
+  rewrite firstn_exact, skipn_exact, (pad_full (length x) x eq_refl).
+  destruct (Nat.eqb (length x) 0) eqn:E0; [apply Nat.eqb_eq in E0; lia|].
+  destruct kd.
+  - rewrite Nat.ltb_irrefl. reflexivity.
+  - destruct x; [cbn in Hk; lia|]. reflexivity.
+Qed.
+
+(* ------------------------------------------------------------------ one frame *)
+Section Frames.
+Variable crc : bytes -> bytes.
+Variable valid : bytes -> bool.
+Variable eh_of : bytes -> option Z.
+Hypothesis crc_len : forall d, length (crc d) = 4%nat.
+
+Notation frame := (frame crc).
+Notation decode1 := (decode1 crc valid true).
+Notation decode_all := (decode_all crc valid true).
+Notation decode_all_f := (decode_all_f crc valid true).
+
+(* what Encode accepts and the decoder hands back: non-empty (a TimedWALMessage always carries
+   its time stamp), within the size limit, and decodable *)
+Definition okrec (d : bytes) : Prop :=
+  (0 < length d)%nat /\ len d <= wal_max_msg_size_bytes /\ valid d = true.
+
+Definition frames (rs : list bytes) : bytes := concat (map frame rs).
+
+Lemma frames_cons : forall d rs, frames (d :: rs) = frame d ++ frames rs.
+Proof. reflexivity. Qed.
+Lemma frames_one : forall d, frames [d] = frame d.
+Proof. intro d. unfold frames. cbn [map concat]. apply app_nil_r. Qed.
+Lemma frames_app : forall a b, frames (a ++ b) = frames a ++ frames b.
+Proof. intros. unfold frames. rewrite map_app, concat_app. reflexivity. Qed.
+Lemma frame_length : forall d, length (frame d) = (8 + length d)%nat.
+Proof. intro d. unfold Model.frame. rewrite !app_length, crc_len, be32_length. lia. Qed.
+
+Lemma okrec_n : forall d, okrec d ->
+  rd32 (be32 (N.of_nat (length d))) = N.of_nat (length d) /\
+  (wal_max_msg_size_bytes <? Z.of_N (N.of_nat (length d))) = false.
+Proof.
+  intros d (H0 & H1 & _). pose proof max_lt_2_32. unfold len in H1. split.
+  - apply rd32_be32. lia.
+  - apply Z.ltb_ge. lia.
+Qed.
+
+(* the decoder on header + any data of the announced length *)
+Lemma decode1_shape : forall kd (c d t : bytes),
+  length c = 4%nat -> (0 < length d)%nat -> len d <= wal_max_msg_size_bytes ->
+  decode1 kd (c ++ be32 (N.of_nat (length d)) ++ d ++ t) =
+    if bytes_eqb (crc d) c then (if valid d then DRec d t else DCorrupt t) else DCorrupt t.
+Proof.
+  intros kd c d t Hc H0 H1. unfold Model.decode1.
+  rewrite (read_exact kd c _ 4 Hc ltac:(lia)).
+  rewrite (read_exact kd (be32 _) _ 4 (be32_length _) ltac:(lia)).
+  assert (okn : rd32 (be32 (N.of_nat (length d))) = N.of_nat (length d)).
+  { apply rd32_be32. pose proof max_lt_2_32. unfold len in H1. lia. }
+  rewrite okn.
+  assert (E : (wal_max_msg_size_bytes <? Z.of_N (N.of_nat (length d))) = false).
+  { apply Z.ltb_ge. unfold len in H1. lia. }
+  rewrite E, Nat2N.id.
+  rewrite (read_exact kd d t (length d) eq_refl H0).
+  reflexivity.
+Qed.
+
+Lemma decode1_frame : forall kd d t, okrec d -> decode1 kd (frame d ++ t) = DRec d t.
+Proof.
+  intros kd d t (H0 & H1 & H2). unfold Model.frame. rewrite <- !app_assoc.
+  rewrite decode1_shape by auto. rewrite bytes_eqb_refl, H2. reflexivity.
+Qed.
+
+Lemma decode1_nil : forall kd, decode1 kd [] = DEof.
+Proof. intros []; reflexivity. Qed.
+
+(* ------------------------------------------------------------------ reads never lengthen *)
+Lemma read_rest_le : forall kd s k b n s' e,
+  read kd s k = (b, n, s', e) -> (length s' <= length s)%nat.
+Proof.
+  intros kd s k b n s' e. unfold read.
+  destruct kd; destruct (Nat.eqb k 0).
+  - intro E. assert (s' = s) by congruence. subst; lia.
+  - intro E. assert (s' = skipn k s) by congruence. subst. rewrite skipn_length. lia.
+  - intro E. assert (s' = s) by congruence. subst; lia.
+  - destruct s as [|x s0]; intro E.
+    + assert (s' = []) by congruence. subst; lia.
+    + assert (s' = skipn k (x :: s0)) by congruence. subst. rewrite skipn_length. lia.
+Qed.
+
+Lemma read_first_lt : forall kd s b n s',
+  read kd s 4 = (b, n, s', RNil) -> (length s' < length s)%nat.
+Proof.
+  intros kd s b n s'. unfold read. change (Nat.eqb 4 0) with false. cbv iota.
+  destruct kd.
+  - destruct (Nat.ltb (length (firstn 4 s)) 4) eqn:L; intro E; [discriminate|].
+    assert (E' : s' = skipn 4 s) by congruence. subst s'.
+    apply Nat.ltb_ge in L. rewrite firstn_length in L. rewrite skipn_length. lia.
+  - destruct s as [|x s0]; intro E; [discriminate|].
+    assert (E' : s' = skipn 4 (x :: s0)) by congruence. subst s'.
+    rewrite skipn_length. cbn [length]. lia.
+Qed.
+
+Lemma decode1_rec_shorter : forall kd s d rest,
+  decode1 kd s = DRec d rest -> (length rest < length s)%nat.
+Proof.
+  intros kd s d rest. unfold Model.decode1.
+  destruct (read kd s 4) as [[[b n] s1] e] eqn:R1.
+  destruct e; try discriminate.
+  2:{ destruct (true && Nat.ltb 0 n); discriminate. }
+  apply read_first_lt in R1.
+  destruct (read kd s1 4) as [[[b2 n2] s2] e2] eqn:R2.
+  apply read_rest_le in R2.
+  destruct e2; try discriminate.
+  destruct (wal_max_msg_size_bytes <? Z.of_N (rd32 b2)); try discriminate.
+  destruct (read kd s2 (N.to_nat (rd32 b2))) as [[[d3 n3] s3] e3] eqn:R3.
+  apply read_rest_le in R3.
+  destruct e3; try discriminate.
+  destruct (bytes_eqb (crc d3) b); try discriminate.
+  destruct (valid d3); try discriminate.
+  intro E; inversion E; subst. lia.
+Qed.
+
+Lemma decode_all_f_mono : forall kd f1 f2 s,
+  (length s < f1)%nat -> (length s < f2)%nat -> decode_all_f f1 kd s = decode_all_f f2 kd s.
+Proof.
+  intros kd f1. induction f1 as [|f1 IH]; intros f2 s H1 H2; [lia|].
+  destruct f2 as [|f2]; [lia|]. cbn [Model.decode_all_f].
+  destruct (decode1 kd s) as [d rest| |rest] eqn:D; try reflexivity.
+  apply decode1_rec_shorter in D.
+  rewrite (IH f2 rest) by lia. reflexivity.
+Qed.
+
+Lemma decode_all_step : forall kd d t, okrec d ->
+  decode_all kd (frame d ++ t) = let '(l, tm) := decode_all kd t in (d :: l, tm).
+Proof.
+  intros kd d t Hd. unfold Model.decode_all at 1. cbn [Model.decode_all_f].
+  rewrite decode1_frame by assumption.
+  rewrite (decode_all_f_mono kd _ (S (length t)) t).
+  - reflexivity.
+  - rewrite app_length, frame_length. lia.
+  - lia.
+Qed.
+
+(* frames are self-delimiting: the records of a clean prefix come out first, whatever follows *)
+Lemma decode_all_app : forall kd rs t, Forall okrec rs ->
+  decode_all kd (frames rs ++ t) = let '(l, tm) := decode_all kd t in (rs ++ l, tm).
+Proof.
+  intros kd rs t H. induction H as [|d rs Hd Hrs IH].
+  - change (frames [] ++ t) with t. destruct (decode_all kd t). reflexivity.
+  - rewrite frames_cons, <- app_assoc, decode_all_step by assumption.
+    rewrite IH. destruct (decode_all kd t). reflexivity.
+Qed.
+
+Lemma decode_all_nil : forall kd, decode_all kd [] = ([], TEof).
+Proof. intros []; reflexivity. Qed.
+
+Lemma roundtrip : forall kd rs, Forall okrec rs -> decode_all kd (frames rs) = (rs, TEof).
+Proof.
+  intros kd rs H. rewrite <- (app_nil_r (frames rs)), decode_all_app by assumption.
+  rewrite decode_all_nil, app_nil_r. reflexivity.
+Qed.
+
+(* ------------------------------------------------------------------ torn tails *)
+Lemma read_short_group : forall (s : bytes) k, (0 < k)%nat -> (length s < k)%nat ->
+  read RGroup s k = (pad k s, length s, [], REof).
+Proof.
+  intros s k H0 H. unfold read.
+  destruct (Nat.eqb k 0) eqn:E0; [apply Nat.eqb_eq in E0; lia|].
+  rewrite firstn_all2 by lia. rewrite skipn_all2 by lia.
+  assert (L : Nat.ltb (length s) k = true) by (apply Nat.ltb_lt; lia). rewrite L. reflexivity.
+Qed.
+
+Lemma read_plain_nil : forall k, (0 < k)%nat -> read RPlain [] k = (pad k [], O, [], REof).
+Proof. intros k H. unfold read. destruct (Nat.eqb k 0) eqn:E0; [apply Nat.eqb_eq in E0; lia|]. reflexivity. Qed.
+
+Lemma read_plain_short : forall (s : bytes) k, s <> [] -> (length s <= k)%nat ->
+  read RPlain s k = (pad k s, length s, [], RNil).
+Proof.
+  intros s k Hs H. unfold read.
+  destruct (Nat.eqb k 0) eqn:E0.
+  { apply Nat.eqb_eq in E0. destruct s; [congruence|cbn in H; lia]. }
+  rewrite firstn_all2 by lia. rewrite skipn_all2 by lia. destruct s; [congruence|reflexivity].
+Qed.
+
+Lemma firstn_frame_split : forall (c x : bytes) k, length c = 4%nat -> (4 <= k)%nat ->
+  firstn k (c ++ x) = c ++ firstn (k - 4) x.
+Proof. intros c x k Hc Hk. rewrite firstn_app, Hc. rewrite firstn_all2 by lia. reflexivity. Qed.
+
+Lemma decode1_short_group : forall s : bytes, (0 < length s < 4)%nat ->
+  decode1 RGroup s = DCorrupt [].
+Proof.
+  intros s H. unfold Model.decode1. rewrite read_short_group by lia.
+  assert (L : Nat.ltb 0 (length s) = true) by (apply Nat.ltb_lt; lia). rewrite L. reflexivity.
+Qed.
+
+(* a strict, non-empty prefix of a frame at the end of the group: DataCorruptionError (with the
+   F8 repair also when fewer than four bytes are left), the reader ends up at the end *)
+Lemma decode1_torn_group : forall r k,
+  len r <= wal_max_msg_size_bytes -> (0 < k < length (frame r))%nat ->
+  decode1 RGroup (firstn k (frame r)) = DCorrupt [].
+Proof.
+  intros r k Hmax Hk. rewrite frame_length in Hk.
+  destruct (Nat.ltb k 4) eqn:K4.
+  { apply Nat.ltb_lt in K4. apply decode1_short_group.
+    rewrite firstn_length, frame_length. lia. }
+  apply Nat.ltb_ge in K4. unfold Model.frame.
+  rewrite (firstn_frame_split (crc r) _ k (crc_len r) K4).
+  destruct (Nat.ltb k 8) eqn:K8.
+  { apply Nat.ltb_lt in K8. unfold Model.decode1.
+    rewrite (read_exact RGroup (crc r) _ 4 (crc_len r) ltac:(lia)).
+    rewrite read_short_group; [reflexivity|lia|].
+    rewrite firstn_length, app_length, be32_length. lia. }
+  apply Nat.ltb_ge in K8.
+  rewrite (firstn_frame_split (be32 _) r (k - 4) (be32_length _) ltac:(lia)).
+  unfold Model.decode1.
+  rewrite (read_exact RGroup (crc r) _ 4 (crc_len r) ltac:(lia)).
+  rewrite (read_exact RGroup (be32 _) _ 4 (be32_length _) ltac:(lia)).
+  assert (okn : rd32 (be32 (N.of_nat (length r))) = N.of_nat (length r)).
+  { apply rd32_be32. pose proof max_lt_2_32. unfold len in Hmax. lia. }
+  rewrite okn.
+  assert (E : (wal_max_msg_size_bytes <? Z.of_N (N.of_nat (length r))) = false).
+  { apply Z.ltb_ge. unfold len in Hmax. lia. }
+  rewrite E, Nat2N.id.
+  rewrite read_short_group; [reflexivity|lia|].
+  rewrite firstn_length. lia.
+Qed.
+
+Lemma decode_all_corrupt1 : forall kd s rest, decode1 kd s = DCorrupt rest ->
+  decode_all kd s = ([], TCorrupt).
+Proof. intros kd s rest E. unfold Model.decode_all. cbn [Model.decode_all_f]. rewrite E. reflexivity. Qed.
+
+(* the same tail read through os.File by repairWalFile: an error, except that a cut inside the
+   data whose missing bytes are "made up" by the zero-initialised buffer yields a record with
+   the checksum of the record being written *)
+Lemma decode1_torn_plain : forall r k,
+  valid [] = false ->
+  len r <= wal_max_msg_size_bytes -> (0 < k < length (frame r))%nat ->
+  decode1 RPlain (firstn k (frame r)) = DCorrupt [] \/
+  exists d', decode1 RPlain (firstn k (frame r)) = DRec d' [] /\
+             crc d' = crc r /\ length d' = length r /\ valid d' = true.
+Proof.
+  intros r k Vnil Hmax Hk. rewrite frame_length in Hk.
+  destruct (Nat.ltb k 4) eqn:K4.
+  { apply Nat.ltb_lt in K4. left. unfold Model.decode1.
+    rewrite read_plain_short.
+    - rewrite read_plain_nil by lia. reflexivity.
+    - intro E. apply (f_equal (@length N)) in E. rewrite firstn_length, frame_length in E. cbn in E. lia.
+    - rewrite firstn_length, frame_length. lia. }
+  apply Nat.ltb_ge in K4. unfold Model.frame.
+  rewrite (firstn_frame_split (crc r) _ k (crc_len r) K4).
+  destruct (Nat.ltb k 8) eqn:K8.
+  { apply Nat.ltb_lt in K8. left. unfold Model.decode1.
+    rewrite (read_exact RPlain (crc r) _ 4 (crc_len r) ltac:(lia)).
+    set (y := firstn (k - 4) (be32 (N.of_nat (length r)) ++ r)).
+    assert (Ly : (length y < 4)%nat).
+    { unfold y. rewrite firstn_length, app_length, be32_length. lia. }
+    destruct y as [|y0 y'] eqn:Ey.
+    { rewrite read_plain_nil by lia. reflexivity. }
+    rewrite read_plain_short by (try discriminate; lia).
+    destruct (wal_max_msg_size_bytes <? Z.of_N (rd32 (pad 4 (y0 :: y')))); [reflexivity|].
+    destruct (N.to_nat (rd32 (pad 4 (y0 :: y')))) as [|m] eqn:Em.
+    - unfold read at 1. cbn [Nat.eqb]. cbv iota.
+      destruct (bytes_eqb (crc []) (crc r)); [rewrite Vnil|]; reflexivity.
+    - rewrite read_plain_nil by lia. reflexivity. }
+  apply Nat.ltb_ge in K8.
+  rewrite (firstn_frame_split (be32 _) r (k - 4) (be32_length _) ltac:(lia)).
+  unfold Model.decode1.
+  rewrite (read_exact RPlain (crc r) _ 4 (crc_len r) ltac:(lia)).
+  rewrite (read_exact RPlain (be32 _) _ 4 (be32_length _) ltac:(lia)).
+  assert (okn : rd32 (be32 (N.of_nat (length r))) = N.of_nat (length r)).
+  { apply rd32_be32. pose proof max_lt_2_32. unfold len in Hmax. lia. }
+  rewrite okn.
+  assert (E : (wal_max_msg_size_bytes <? Z.of_N (N.of_nat (length r))) = false).
+  { apply Z.ltb_ge. unfold len in Hmax. lia. }
+  rewrite E, Nat2N.id.
+  set (z := firstn (k - 4 - 4) r).
+  assert (Lz : (length z < length r)%nat) by (unfold z; rewrite firstn_length; lia).
+  destruct z as [|z0 z'] eqn:Ez.
+  { left. rewrite read_plain_nil by lia. reflexivity. }
+  rewrite read_plain_short by (try discriminate; lia).
+  destruct (bytes_eqb (crc (pad (length r) (z0 :: z'))) (crc r)) eqn:C; [|left; reflexivity].
+  destruct (valid (pad (length r) (z0 :: z'))) eqn:V; [|left; reflexivity].
+  right. exists (pad (length r) (z0 :: z')). split; [reflexivity|].
+  split; [apply bytes_eqb_eq; exact C|]. split; [|exact V].
+  unfold pad. rewrite app_length, repeat_length. lia.
+Qed.
+
+Lemma torn_tail_no_phantom : forall (rs : list bytes) (r : bytes) (k : nat),
+  Forall okrec rs -> len r <= wal_max_msg_size_bytes -> (k < length (frame r))%nat ->
+  decode_all RGroup (frames rs ++ firstn k (frame r)) =
+    (rs, if Nat.eqb k 0 then TEof else TCorrupt).
+Proof.
+  intros rs r k Hrs Hr Hk. rewrite decode_all_app by assumption.
+  destruct k as [|k].
+  - cbn [firstn Nat.eqb]. rewrite decode_all_nil, app_nil_r. reflexivity.
+  - cbn [Nat.eqb].
+    rewrite (decode_all_corrupt1 RGroup _ [] (decode1_torn_group r (S k) Hr ltac:(lia))).
+    rewrite app_nil_r. reflexivity.
+Qed.
+
+Lemma repair_keeps_intact : valid [] = false ->
+  forall (rs : list bytes) (r : bytes) (k : nat),
+  Forall okrec rs -> len r <= wal_max_msg_size_bytes -> (k < length (frame r))%nat ->
+  let out := fst (decode_all RPlain (frames rs ++ firstn k (frame r))) in
+  out = rs \/ out = rs ++ [r] \/ CrcCollision crc.
+Proof.
+  intros Vnil rs r k Hrs Hr Hk out. subst out. rewrite decode_all_app by assumption.
+  destruct k as [|k].
+  { cbn [firstn]. rewrite decode_all_nil. left. cbn. apply app_nil_r. }
+  destruct (decode1_torn_plain r (S k) Vnil Hr ltac:(lia)) as [E|(d' & E & C & L & V)].
+  - rewrite (decode_all_corrupt1 RPlain _ [] E). left. cbn. apply app_nil_r.
+  - assert (EA : decode_all RPlain (firstn (S k) (frame r)) = ([d'], TEof)).
+    { unfold Model.decode_all. cbn [Model.decode_all_f]. rewrite E.
+      destruct (length (firstn (S k) (frame r))) eqn:L0.
+      - rewrite firstn_length, frame_length in L0. lia.
+      - cbn [Model.decode_all_f]. rewrite decode1_nil. reflexivity. }
+    rewrite EA. cbn [fst].
+    destruct (list_eq_dec N.eq_dec d' r) as [->|Hne].
+    + right; left. reflexivity.
+    + right; right. exists d', r. split; assumption.
+Qed.
+
+(* ------------------------------------------------------------------ damage is detected *)
+Lemma crc_field_damage : forall kd (c d t : bytes),
+  length c = 4%nat -> (0 < length d)%nat -> len d <= wal_max_msg_size_bytes -> c <> crc d ->
+  decode1 kd (c ++ be32 (N.of_nat (length d)) ++ d ++ t) = DCorrupt t.
+Proof.
+  intros kd c d t Hc H0 H1 Hne. rewrite decode1_shape by assumption.
+  destruct (bytes_eqb (crc d) c) eqn:E; [|reflexivity].
+  apply bytes_eqb_eq in E. congruence.
+Qed.
+
+Lemma data_damage : forall kd (d0 d' t : bytes),
+  (0 < length d0)%nat -> len d0 <= wal_max_msg_size_bytes ->
+  length d' = length d0 -> d' <> d0 ->
+  decode1 kd (crc d0 ++ be32 (N.of_nat (length d0)) ++ d' ++ t) = DCorrupt t \/ CrcCollision crc.
+Proof.
+  intros kd d0 d' t H0 H1 HL Hne. rewrite <- HL.
+  rewrite decode1_shape; [|apply crc_len|lia|unfold len in *; lia].
+  destruct (bytes_eqb (crc d') (crc d0)) eqn:E.
+  - right. exists d', d0. split; [assumption|apply bytes_eqb_eq; exact E].
+  - left. reflexivity.
+Qed.
+
+Lemma read_group_ok : forall (s : bytes) k b n s',
+  read RGroup s k = (b, n, s', RNil) -> s = b ++ s' /\ length b = k.
+Proof.
+  intros s k b n s'. unfold read.
+  destruct (Nat.eqb k 0); [discriminate|].
+  destruct (Nat.ltb (length (firstn k s)) k) eqn:L; [discriminate|].
+  intro E. apply Nat.ltb_ge in L.
+  assert (Eb : b = pad k (firstn k s)) by congruence.
+  assert (Es : s' = skipn k s) by congruence. subst b s'.
+  assert (Lk : length (firstn k s) = k) by (pose proof (firstn_le_length k s); lia).
+  rewrite (pad_full k _ Lk). split; [symmetry; apply firstn_skipn|exact Lk].
+Qed.
+
+(* whatever the group reader hands back as a record stands on disk behind its own checksum *)
+Lemma decode1_sound : forall s d rest,
+  decode1 RGroup s = DRec d rest ->
+  exists l4, s = crc d ++ l4 ++ d ++ rest /\ length l4 = 4%nat /\
+             rd32 l4 = N.of_nat (length d) /\ valid d = true /\ (0 < length d)%nat.
+Proof.
+  intros s d rest. unfold Model.decode1.
+  destruct (read RGroup s 4) as [[[b n] s1] e] eqn:R1.
+  destruct e; try discriminate.
+  2:{ destruct (true && Nat.ltb 0 n); discriminate. }
+  apply read_group_ok in R1 as [E1 L1].
+  destruct (read RGroup s1 4) as [[[b2 n2] s2] e2] eqn:R2.
+  destruct e2; try discriminate.
+  apply read_group_ok in R2 as [E2 L2].
+  destruct (wal_max_msg_size_bytes <? Z.of_N (rd32 b2)); try discriminate.
+  destruct (read RGroup s2 (N.to_nat (rd32 b2))) as [[[d3 n3] s3] e3] eqn:R3.
+  destruct e3; try discriminate.
+  assert (K0 : N.to_nat (rd32 b2) <> O).
+  { intro K. rewrite K in R3. unfold read in R3. cbn in R3. discriminate. }
+  apply read_group_ok in R3 as [E3 L3].
+  destruct (bytes_eqb (crc d3) b) eqn:C; try discriminate.
+  destruct (valid d3) eqn:V; try discriminate.
+  intro E. assert (d3 = d) by congruence. assert (s3 = rest) by congruence. subst d3 s3.
+  apply bytes_eqb_eq in C. exists b2. subst s s1 s2. rewrite C.
+  repeat split; try assumption; lia.
+Qed.
+
+(* ------------------------------------------------------------------ limits *)
+Lemma prune_f_skipn : forall n total limit (fs : list bytes),
+  exists k, (k <= n)%nat /\ prune_f n total limit fs = skipn k fs.
+Proof.
+  induction n as [|n IH]; intros total limit fs.
+  - exists O. split; [lia|reflexivity].
+  - cbn [prune_f]. destruct (total <? limit).
+    + exists O. split; [lia|reflexivity].
+    + destruct fs as [|f r].
+      * exists O. split; [lia|reflexivity].
+      * destruct (IH (total - len f) limit r) as (k & Hk & E).
+        exists (S k). split; [lia|exact E].
+Qed.
+
+Lemma check_total_whole_oldest : forall s,
+  exists k, Z.of_nat k <= autofile_max_files_to_remove /\
+    files (check_total s) = skipn k (files s) /\
+    head (check_total s) = head s /\ buf (check_total s) = buf s /\
+    synced (check_total s) = synced s /\ gmax (check_total s) = gmax s.
+Proof.
+  intro s. unfold check_total. destruct (total_limit s =? 0).
+  - exists O. cbn. unfold autofile_max_files_to_remove. repeat split; lia.
+  - destruct (prune_f_skipn (Z.to_nat autofile_max_files_to_remove) (total_size s)
+                (total_limit s) (files s)) as (k & Hk & E).
+    exists k. unfold set_disk. cbn [files head buf synced gmax]. rewrite E.
+    unfold autofile_max_files_to_remove in *. repeat split; lia.
+Qed.
+
+Lemma rotate_whole_head : forall s,
+  files (rotate s) = files s ++ [head s ++ buf s] /\ head (rotate s) = [] /\ buf (rotate s) = [].
+Proof. intro s. repeat split. Qed.
+
+End Frames.
+
+(* ------------------------------------------------------------------ crash / repair cycles *)
+Section Cycle.
+Variable crc : bytes -> bytes.
+Variable valid : bytes -> bool.
+Hypothesis crc_len : forall d, length (crc d) = 4%nat.
+Hypothesis valid_nil : valid [] = false.
+
+Notation frame := (frame crc).
+Notation frames := (frames crc).
+Notation okrec := (okrec valid).
+Notation decode_all := (decode_all crc valid true).
+
+Lemma firstn_frames : forall rs k, Forall okrec rs ->
+  exists pre post t, rs = pre ++ post /\ firstn k (frames rs) = frames pre ++ t /\
+    (t = [] \/ exists r post' j, post = r :: post' /\ (0 < j < length (frame r))%nat /\
+                                 t = firstn j (frame r)).
+Proof.
+  induction rs as [|d rs IH]; intros k H.
+  - exists [], [], []. rewrite firstn_nil. repeat split. left; reflexivity.
+  - inversion H as [|? ? Hd Hrs]; subst.
+    rewrite frames_cons.
+    destruct (Nat.ltb k (length (frame d))) eqn:K.
+    + apply Nat.ltb_lt in K. destruct k as [|k].
+      * exists [], (d :: rs), []. repeat split. left; reflexivity.
+      * exists [], (d :: rs), (firstn (S k) (frame d)). split; [reflexivity|]. split.
+        { rewrite firstn_app. replace (S k - length (frame d))%nat with O by lia.
+          cbn [firstn]. rewrite app_nil_r. reflexivity. }
+        right. exists d, rs, (S k). repeat split; lia.
+    + apply Nat.ltb_ge in K.
+      destruct (IH (k - length (frame d))%nat Hrs) as (pre & post & t & E1 & E2 & E3).
+      exists (d :: pre), post, t. split; [cbn; congruence|]. split; [|exact E3].
+      rewrite firstn_app, firstn_all2 by lia. rewrite E2, frames_cons, app_assoc. reflexivity.
+Qed.
+
+Lemma frames_concat : forall fs, concat (map frames fs) = frames (concat fs).
+Proof.
+  induction fs as [|f fs IH]; [reflexivity|].
+  cbn [map concat]. rewrite IH, frames_app. reflexivity.
+Qed.
+
+Record Inv (s : st) (fs : list (list bytes)) (hs hu : list bytes) : Prop := {
+  inv_files : files s = map frames fs;
+  inv_head : head s ++ buf s = frames (hs ++ hu);
+  inv_synced : synced s = len (frames hs);
+  inv_ok : Forall okrec (concat fs ++ hs ++ hu) }.
+
+Definition crash_repair (s : st) (keep : Z) : st := repair crc valid true (crash s keep).
+
+Lemma crash_repair_cycle : forall s fs hs hu keep,
+  Inv s fs hs hu ->
+  (exists kept lost, hu = kept ++ lost /\
+     Inv (crash_repair s keep) fs (hs ++ kept) [] /\
+     buf (crash_repair s keep) = [] /\
+     read_all crc valid true (crash_repair s keep) = (concat fs ++ hs ++ kept, TEof))
+  \/ CrcCollision crc.
+Proof.
+  intros s fs hs hu keep [Hf Hh Hs Hok].
+  apply Forall_app in Hok as [Hfs Hok]. apply Forall_app in Hok as [Hhs Hhu].
+  set (all := head s ++ buf s).
+  set (n := Z.to_nat (Z.min (synced s + Z.max 0 keep) (len all))).
+  assert (Hall : all = frames hs ++ frames hu) by (unfold all; rewrite Hh, frames_app; reflexivity).
+  assert (Hn : (length (frames hs) <= n)%nat).
+  { unfold n. rewrite Hs, Hall. unfold len. rewrite app_length. lia. }
+  destruct (firstn_frames hu (n - length (frames hs))%nat Hhu)
+    as (pre & post & t & E1 & E2 & E3).
+  assert (Hcr : head (crash s keep) = frames (hs ++ pre) ++ t).
+  { unfold crash. fold all. fold n. cbn [head set_disk]. rewrite Hall.
+    rewrite firstn_app, firstn_all2 by lia. rewrite E2, frames_app, app_assoc. reflexivity. }
+  assert (Hpre : Forall okrec (hs ++ pre)).
+  { apply Forall_app; split; [assumption|]. subst hu. apply Forall_app in Hhu as [? ?]. assumption. }
+  assert (Fin : forall kept lost, hu = kept ++ lost -> Forall okrec kept ->
+            head (crash_repair s keep) = frames (hs ++ kept) ->
+            exists kept lost, hu = kept ++ lost /\
+              Inv (crash_repair s keep) fs (hs ++ kept) [] /\
+              buf (crash_repair s keep) = [] /\
+              read_all crc valid true (crash_repair s keep) = (concat fs ++ hs ++ kept, TEof)).
+  { intros kept lost Ehu Hk Hhead. exists kept, lost. split; [assumption|].
+    assert (Hall2 : Forall okrec (concat fs ++ hs ++ kept)).
+    { apply Forall_app; split; [assumption|]. apply Forall_app; split; assumption. }
+    split; [|split].
+    - constructor.
+      + exact Hf.
+      + change (buf (crash_repair s keep)) with (@nil N). rewrite !app_nil_r. exact Hhead.
+      + change (synced (crash_repair s keep)) with (len (head (crash_repair s keep))).
+        rewrite Hhead. reflexivity.
+      + rewrite app_nil_r. exact Hall2.
+    - reflexivity.
+    - unfold read_all. change (files (crash_repair s keep)) with (files s).
+      rewrite Hf, Hhead, frames_concat, <- frames_app.
+      apply roundtrip; assumption. }
+  assert (Hrep : head (crash_repair s keep) =
+                 frames (fst (decode_all RPlain (frames (hs ++ pre) ++ t)))).
+  { unfold crash_repair, repair. cbn [head]. rewrite Hcr. reflexivity. }
+  destruct E3 as [->|(r & post' & j & Ep & Hj & ->)].
+  - left. apply (Fin pre post E1).
+    + subst hu. apply Forall_app in Hhu as [? ?]. assumption.
+    + rewrite Hrep, app_nil_r, (roundtrip crc valid crc_len) by assumption. reflexivity.
+  - assert (Hr : okrec r).
+    { subst hu post. apply Forall_app in Hhu as [_ Hp]. inversion Hp; assumption. }
+    pose proof (repair_keeps_intact crc valid crc_len valid_nil (hs ++ pre) r j Hpre
+                  (proj1 (proj2 Hr)) ltac:(lia)) as R. cbv zeta in R.
+    destruct R as [R|[R|R]]; [| |right; exact R]; left.
+    + apply (Fin pre post E1).
+      * subst hu. apply Forall_app in Hhu as [? ?]. assumption.
+      * rewrite Hrep, R. reflexivity.
+    + apply (Fin (pre ++ [r]) post').
+      * subst hu post. rewrite <- app_assoc. reflexivity.
+      * apply Forall_app; split; [|constructor; [assumption|constructor]].
+        subst hu. apply Forall_app in Hhu as [? ?]. assumption.
+      * rewrite Hrep, R, app_assoc. reflexivity.
+Qed.
+
+Lemma buf_write_app : forall h b p,
+  fst (buf_write h b p) ++ snd (buf_write h b p) = h ++ b ++ p.
+Proof.
+  intros h b p. unfold buf_write.
+  destruct (len p <=? buf_cap - len b); [reflexivity|].
+  destruct b as [|b0 b']; [cbn [fst snd]; rewrite app_nil_r; reflexivity|].
+  set (n := Z.to_nat (buf_cap - len (b0 :: b'))).
+  destruct (len (skipn n p) <=? buf_cap); cbn [fst snd].
+  - rewrite <- !app_assoc. rewrite firstn_skipn. reflexivity.
+  - rewrite app_nil_r, <- !app_assoc. rewrite firstn_skipn. reflexivity.
+Qed.
+
+Lemma inv_read_all : forall s fs hs hu, Inv s fs hs hu -> buf s = [] ->
+  read_all crc valid true s = (concat fs ++ hs ++ hu, TEof).
+Proof.
+  intros s fs hs hu [Hf Hh Hs Hok] Hb. unfold read_all.
+  rewrite Hb, app_nil_r in Hh. rewrite Hf, Hh, frames_concat, <- frames_app.
+  apply roundtrip; assumption.
+Qed.
+
+Lemma write_inv : forall s fs hs hu d, okrec d -> Inv s fs hs hu ->
+  snd (write crc s d) = true /\ Inv (fst (write crc s d)) fs hs (hu ++ [d]).
+Proof.
+  intros s fs hs hu d Hd [Hf Hh Hs Hok]. unfold write, encode.
+  assert (E : (wal_max_msg_size_bytes <? len d) = false).
+  { apply Z.ltb_ge. apply Hd. }
+  rewrite E. pose proof (buf_write_app (head s) (buf s) (frame d)) as B.
+  destruct (buf_write (head s) (buf s) (frame d)) as [h b]. cbn [fst snd] in *.
+  split; [reflexivity|]. constructor; cbn [files head buf synced set_disk].
+  - exact Hf.
+  - rewrite B, app_assoc, Hh. rewrite (app_assoc hs hu [d]), (frames_app crc (hs ++ hu) [d]).
+    f_equal. symmetry. apply frames_one.
+  - exact Hs.
+  - rewrite !app_assoc. apply Forall_app; split; [rewrite <- !app_assoc; exact Hok|].
+    constructor; [exact Hd|constructor].
+Qed.
+
+Lemma flush_inv : forall s fs hs hu, Inv s fs hs hu -> Inv (flush_sync s) fs (hs ++ hu) [].
+Proof.
+  intros s fs hs hu [Hf Hh Hs Hok]. constructor; cbn [files head buf synced set_disk flush_sync].
+  - exact Hf.
+  - rewrite !app_nil_r. exact Hh.
+  - rewrite Hh. reflexivity.
+  - rewrite app_nil_r. exact Hok.
+Qed.
+
+Lemma rotate_inv : forall s fs hs hu, Inv s fs hs hu -> Inv (rotate s) (fs ++ [hs ++ hu]) [] [].
+Proof.
+  intros s fs hs hu [Hf Hh Hs Hok]. constructor; cbn [files head buf synced rotate].
+  - rewrite map_app, Hf, Hh. reflexivity.
+  - reflexivity.
+  - reflexivity.
+  - rewrite !app_nil_r, concat_app. cbn [concat]. rewrite app_nil_r. exact Hok.
+Qed.
+
+Lemma check_head_inv : forall s fs hs hu, Inv s fs hs hu ->
+  Inv (check_head s) fs hs hu \/ Inv (check_head s) (fs ++ [hs ++ hu]) [] [].
+Proof.
+  intros s fs hs hu H. unfold check_head.
+  destruct (head_limit s =? 0); [left; exact H|].
+  destruct (head_limit s <=? len (head s)); [right; apply rotate_inv; exact H|left; exact H].
+Qed.
+
+Lemma check_total_inv : forall s fs hs hu, Inv s fs hs hu ->
+  exists k, Z.of_nat k <= autofile_max_files_to_remove /\ Inv (check_total s) (skipn k fs) hs hu.
+Proof.
+  intros s fs hs hu [Hf Hh Hs Hok].
+  destruct (check_total_whole_oldest s) as (k & Hk & E1 & E2 & E3 & E4 & _).
+  exists k. split; [exact Hk|]. constructor.
+  - rewrite E1, Hf. apply skipn_map.
+  - rewrite E2, E3. exact Hh.
+  - rewrite E4. exact Hs.
+  - apply Forall_app in Hok as [Hfs Hr]. apply Forall_app; split; [|exact Hr].
+    rewrite <- (firstn_skipn k fs), concat_app in Hfs. apply Forall_app in Hfs as [_ ?]. assumption.
+Qed.
+
+(* ---- the reduced machine and its journal ---- *)
+Inductive dop :=
+| DWrite (d : bytes) | DWriteSync (d : bytes) | DFlush | DRotate | DCheckHead | DCheckTotal
+| DCrash (keep : Z).
+
+Definition dstep (s : st) (o : dop) : st :=
+  match o with
+  | DWrite d => fst (write crc s d)
+  | DWriteSync d => fst (write_sync crc s d)
+  | DFlush => flush_sync s
+  | DRotate => rotate s
+  | DCheckHead => check_head s
+  | DCheckTotal => check_total s
+  | DCrash keep => crash_repair s keep
+  end.
+
+Definition okop (o : dop) : Prop :=
+  match o with DWrite d | DWriteSync d => okrec d | _ => True end.
+
+Record jst := J { jf : list (list bytes); js : list bytes; ju : list bytes }.
+
+Inductive jstep : jst -> dop -> jst -> Prop :=
+| JWrite j d : jstep j (DWrite d) (J (jf j) (js j) (ju j ++ [d]))
+| JWriteSync j d : jstep j (DWriteSync d) (J (jf j) (js j ++ ju j ++ [d]) [])
+| JFlush j : jstep j DFlush (J (jf j) (js j ++ ju j) [])
+| JRotate j : jstep j DRotate (J (jf j ++ [js j ++ ju j]) [] [])
+| JHeadKeep j : jstep j DCheckHead j
+| JHeadRotate j : jstep j DCheckHead (J (jf j ++ [js j ++ ju j]) [] [])
+| JTotal j k : Z.of_nat k <= autofile_max_files_to_remove ->
+    jstep j DCheckTotal (J (skipn k (jf j)) (js j) (ju j))
+| JCrash j keep kept lost : ju j = kept ++ lost ->
+    jstep j (DCrash keep) (J (jf j) (js j ++ kept) []).
+
+Inductive jsteps : jst -> list dop -> jst -> Prop :=
+| JNil j : jsteps j [] j
+| JCons j o j1 ops j2 : jstep j o j1 -> jsteps j1 ops j2 -> jsteps j (o :: ops) j2.
+
+Definition JInv (s : st) (j : jst) : Prop := Inv s (jf j) (js j) (ju j).
+
+Lemma dstep_refines : forall s j o, JInv s j -> okop o ->
+  (exists j', jstep j o j' /\ JInv (dstep s o) j') \/ CrcCollision crc.
+Proof.
+  intros s [fs hs hu] o H Ho. unfold JInv in *. cbn [jf js ju] in *.
+  destruct o as [d|d| | | | |keep]; cbn [dstep okop] in *.
+  - left. eexists. split; [apply JWrite|]. cbn [jf js ju]. apply write_inv; assumption.
+  - left. eexists. split; [apply JWriteSync|]. cbn [jf js ju].
+    unfold write_sync. destruct (write_inv s fs hs hu d Ho H) as [Ok I].
+    destruct (write crc s d) as [s1 ok]. cbn [fst snd] in *. subst ok. cbn [fst].
+    apply flush_inv in I. exact I.
+  - left. eexists. split; [apply JFlush|]. apply flush_inv; assumption.
+  - left. eexists. split; [apply JRotate|]. apply rotate_inv; assumption.
+  - left. destruct (check_head_inv s fs hs hu H) as [I|I].
+    + eexists. split; [apply JHeadKeep|exact I].
+    + eexists. split; [apply JHeadRotate|exact I].
+  - left. destruct (check_total_inv s fs hs hu H) as (k & Hk & I).
+    eexists. split; [apply (JTotal (J fs hs hu) k Hk)|exact I].
+  - destruct (crash_repair_cycle s fs hs hu keep H) as [(kept & lost & E & I & _)|C]; [left|right; exact C].
+    eexists. split; [apply (JCrash (J fs hs hu) keep kept lost E)|exact I].
+Qed.
+
+Lemma dsteps_refine : forall ops s j, JInv s j -> Forall okop ops ->
+  (exists j', jsteps j ops j' /\ JInv (fold_left dstep ops s) j') \/ CrcCollision crc.
+Proof.
+  induction ops as [|o ops IH]; intros s j H Hok.
+  - left. exists j. split; [constructor|exact H].
+  - inversion Hok as [|? ? Ho Hops]; subst.
+    destruct (dstep_refines s j o H Ho) as [(j1 & S1 & I1)|C]; [|right; exact C].
+    destruct (IH (dstep s o) j1 I1 Hops) as [(j2 & S2 & I2)|C]; [|right; exact C].
+    left. exists j2. split; [econstructor; eassumption|exact I2].
+Qed.
+
+Lemma init_inv : forall hl tl, JInv (init hl tl) (J [] [] []).
+Proof. intros. constructor; cbn; try reflexivity. constructor. Qed.
+
+(* what a journal step can do to the durable part (files and synced records of the head):
+   drop at most maxFilesToRemove whole oldest files, append to the newest segment, open a new
+   empty segment behind it — nothing else *)
+Lemma journal_step_durable : forall j o j', jstep j o j' ->
+  exists k add, Z.of_nat k <= autofile_max_files_to_remove /\
+    (jf j' ++ [js j'] = skipn k (jf j) ++ [js j ++ add] \/
+     jf j' ++ [js j'] = skipn k (jf j) ++ [js j ++ add; []]).
+Proof.
+  intros j o j' H. assert (Z0 : Z.of_nat 0 <= autofile_max_files_to_remove)
+    by (unfold autofile_max_files_to_remove; lia).
+  inversion H; subst; cbn [jf js ju].
+  - exists O, []. split; [exact Z0|]. left. rewrite app_nil_r. reflexivity.
+  - exists O, (ju j ++ [d]). split; [exact Z0|]. left. reflexivity.
+  - exists O, (ju j). split; [exact Z0|]. left. reflexivity.
+  - exists O, (ju j). split; [exact Z0|]. right. cbn [skipn]. rewrite <- app_assoc. reflexivity.
+  - exists O, []. split; [exact Z0|]. left. rewrite app_nil_r. reflexivity.
+  - exists O, (ju j). split; [exact Z0|]. right. cbn [skipn]. rewrite <- app_assoc. reflexivity.
+  - exists k, []. split; [assumption|]. left. rewrite app_nil_r. reflexivity.
+  - exists O, kept. split; [exact Z0|]. left. reflexivity.
+Qed.
+
+End Cycle.
